@@ -13,7 +13,11 @@ func Gen(t *rapid.T) *Case {
 		for j := 0; j < n; j++ {
 			kind := rapid.IntRange(0, 7).Draw(t, "kind")
 			if kind <= 1 {
-				cy.Ops = append(cy.Ops, Op{K: "save", Sub: rapid.SampledFrom([]string{"A", "B", "sub-3"}).Draw(t, "sub")})
+				op := Op{K: "save", Sub: rapid.SampledFrom([]string{"A", "A", "B", "sub-3"}).Draw(t, "sub")}
+				if rapid.IntRange(0, 2).Draw(t, "rewind") == 0 {
+					op.Back = rapid.IntRange(1, 3).Draw(t, "back")
+				}
+				cy.Ops = append(cy.Ops, op)
 			} else if kind == 2 {
 				// a failing save (cancelled context) followed by a retry with the same offset
 				sub := rapid.SampledFrom([]string{"A", "B", "sub-3"}).Draw(t, "sub")
@@ -48,7 +52,10 @@ func GenInProc(t *rapid.T) *FCase {
 		for j := 0; j < n; j++ {
 			op := FOp{K: rapid.SampledFrom([]string{"append", "append", "append", "save"}).Draw(t, "k")}
 			if op.K == "save" {
-				op.Sub = rapid.SampledFrom([]string{"A", "B"}).Draw(t, "sub")
+				op.Sub = rapid.SampledFrom([]string{"A", "A", "B"}).Draw(t, "sub")
+				if rapid.IntRange(0, 2).Draw(t, "rewind") == 0 {
+					op.Back = rapid.IntRange(1, 3).Draw(t, "back")
+				}
 			}
 			op.Fault = rapid.SampledFrom(fFaults).Draw(t, "fault")
 			ops = append(ops, op)
